@@ -131,6 +131,27 @@ type gatedConn struct {
 	mu      sync.Mutex
 	stalled chan struct{}
 	wdl     time.Time
+	// held (see HoldReturns): a Write hands its bytes over and then does not
+	// return until released - the writing goroutine loses the processor right
+	// after the system call, while the peer already has the data.
+	held chan struct{}
+}
+
+func (g *gatedConn) HoldReturns() {
+	g.mu.Lock()
+	if g.held == nil {
+		g.held = make(chan struct{})
+	}
+	g.mu.Unlock()
+}
+
+func (g *gatedConn) ReleaseReturns() {
+	g.mu.Lock()
+	if g.held != nil {
+		close(g.held)
+		g.held = nil
+	}
+	g.mu.Unlock()
 }
 
 func (g *gatedConn) SetWriteDeadline(t time.Time) error {
@@ -162,7 +183,15 @@ func (g *gatedConn) Write(p []byte) (int, error) {
 			return 0, os.ErrDeadlineExceeded
 		}
 	}
-	return g.Conn.Write(p)
+	n, err := g.Conn.Write(p)
+	g.mu.Lock()
+	held := g.held
+	g.mu.Unlock()
+	if held != nil && err == nil && len(p) > 4 {
+		// (the 4-byte write is the frame's length prefix; the frame follows)
+		<-held
+	}
+	return n, err
 }
 
 // StallWrites / ResumeWrites switch the stall.
